@@ -195,6 +195,14 @@ func c20RunSack(t *testing.T, c c20SackCase, method string) c20SackObs {
 					src.Inject(c20TCPFrame(loop, loop, port, clientPort, 0x00200001, c20InitSeq, 0x10, opt))
 				case "plain":
 					src.Inject(c20TCPFrame(loop, loop, port, clientPort, 0x00200001, c20InitSeq, 0x10, nil))
+				case "partial-block":
+					// a SACK option that carries no complete block (kind 5, length 6: a left edge only):
+					// as good as no SACK block — the target does not answer the probes with usable SACKs
+					opt := []byte{5, 6, 0, 0, 0, 0}
+					binary.BigEndian.PutUint32(opt[2:], uint32(c20InitSeq+h.TTL))
+					src.Inject(c20TCPFrame(loop, loop, port, clientPort, 0x00200001, c20InitSeq, 0x10, opt))
+				case "empty-sack-option":
+					src.Inject(c20TCPFrame(loop, loop, port, clientPort, 0x00200001, c20InitSeq, 0x10, []byte{5, 2}))
 				}
 			}
 		}
@@ -274,6 +282,8 @@ func c20RealSack(t *testing.T, rep *hx.Report, orc *hx.Oracle, rng *hx.RNG) {
 		mk("no-sack-permitted", "no-sack-permitted", func(c *c20SackCase) { c.SynAck = "plain" }),
 		mk("acks-without-sack-blocks", "ack-without-sack", func(c *c20SackCase) { c.Reply = "plain" }),
 		mk("acks-without-sack-blocks-timestamps", "ack-without-sack", func(c *c20SackCase) { c.Reply = "plain"; c.SynAck = "sackperm-ts" }),
+		mk("acks-with-partial-sack-block", "ack-without-sack", func(c *c20SackCase) { c.Reply = "partial-block" }),
+		mk("acks-with-empty-sack-option", "ack-without-sack", func(c *c20SackCase) { c.Reply = "empty-sack-option" }),
 		mk("platform-must-close-port", "must-close-port", func(c *c20SackCase) { c.MustClose = true }),
 		mk("synack-never-captured", "handshake-timeout", func(c *c20SackCase) { c.SynAck = "none" }),
 		mk("truncated-timestamps", "handshake-trunc-ts", func(c *c20SackCase) { c.SynAck = "trunc-ts" }),
